@@ -1,0 +1,12 @@
+//go:build !verif
+// +build !verif
+
+package util
+
+import "time"
+
+// verifStep marks a point between two atomic steps of the resource pool.
+func verifStep(name string) {}
+
+// twSleep is the time wheel's tick wait.
+func twSleep(d time.Duration) { time.Sleep(d) }
